@@ -1,6 +1,6 @@
 SPECIFICATION TraceSpec
 CONSTANTS
-  Apis = {"set_header_str", "set_header_bytes", "add_header_value", "set_header_name", "add_header_name", "status_reason", "cookie_name", "cookie_value", "cookie_domain", "cookie_path", "cookie_samesite", "redirect"}
+  Apis = {"set_header_str", "set_header_bytes", "add_header_value", "set_header_name", "add_header_name", "status_reason", "cookie_name", "cookie_value", "cookie_domain", "cookie_path", "cookie_samesite", "redirect", "conn_reason", "wsgi_reason"}
   Alphabet = {0, 1, 9, 10, 13, 32, 34, 44, 58, 59, 60, 61, 92, 97, 127, 133, 233}
   MaxLen = 2
   EmbedChars = {0, 1, 9, 10, 13, 32, 34, 44, 58, 59, 60, 61, 92, 97, 127, 133, 233, 266, 269, 8232}
